@@ -25,6 +25,7 @@ import (
 	"reflect"
 	"sort"
 	"time"
+	"unicode/utf8"
 
 	kmip "github.com/ovh/kmip-go"
 	"github.com/ovh/kmip-go/ttlv"
@@ -77,6 +78,10 @@ type Opts struct {
 	// AttrDefault, when not "", is the name of every attribute that is not taken from Attrs
 	// (makes the set of struct types occurring in a FillMax message independent of the seed).
 	AttrDefault kmip.AttributeName
+	// TextSafe restricts scalars to what the XML and JSON encodings can be expected to carry:
+	// strings are valid UTF-8 without control characters, dates lie in the years 1..9999,
+	// bit masks are non-negative (also inside generic trees). For the text-format properties.
+	TextSafe bool
 	// Sweep, when > 0, replaces the random draws of scalars by a deterministic walk of the
 	// boundary pools: the k-th scalar of a kind takes pool element (Sweep-1+k) mod len(pool), so
 	// Sweep = 1..SweepLen over one message shape puts every pool element in every position.
@@ -203,11 +208,32 @@ func (g *gen) u32() int64 {
 	}
 	return tv.GenLeaf(g.r, tv.KEnum).I
 }
-func (g *gen) text() string {
-	if i, ok := g.sweep("text", len(poolText)); ok {
-		return poolText[i]
+func textSafe(s string) bool {
+	if !utf8.ValidString(s) {
+		return false
 	}
-	return string(tv.GenText(g.r))
+	for _, c := range s {
+		if c < 0x20 || c == 0x7f {
+			return false
+		}
+	}
+	return true
+}
+
+const minDate, maxDate = -62135596800, 253402300799 // 0001-01-01 .. 9999-12-31 UTC
+
+func (g *gen) text() string {
+	for {
+		s := ""
+		if i, ok := g.sweep("text", len(poolText)); ok {
+			s = poolText[i]
+		} else {
+			s = string(tv.GenText(g.r))
+		}
+		if !g.o.TextSafe || textSafe(s) {
+			return s
+		}
+	}
 }
 func (g *gen) bytes() []byte {
 	if i, ok := g.sweep("bytes", 18); ok {
@@ -223,13 +249,19 @@ func (g *gen) big() *big.Int {
 }
 
 func (g *gen) date() time.Time {
-	if i, ok := g.sweep("date", len(datePool)); ok {
-		return time.Unix(datePool[i], 0)
+	for {
+		var d int64
+		if i, ok := g.sweep("date", len(datePool)); ok {
+			d = datePool[i]
+		} else if g.r.Chance(1, 5) {
+			d = g.i64()
+		} else {
+			d = datePool[g.r.Intn(len(datePool))]
+		}
+		if !g.o.TextSafe || (d >= minDate && d <= maxDate) {
+			return time.Unix(d, 0)
+		}
 	}
-	if g.r.Chance(1, 5) {
-		return time.Unix(g.i64(), 0)
-	}
-	return time.Unix(datePool[g.r.Intn(len(datePool))], 0)
 }
 
 var (
@@ -286,6 +318,9 @@ func (g *gen) mask(t reflect.Type) int64 {
 			}
 		}
 		return v
+	}
+	if g.o.TextSafe {
+		return g.i32() & 0x7fffffff
 	}
 	return g.i32()
 }
@@ -380,7 +415,33 @@ func (g *gen) nonZeroScalar(v reflect.Value) {
 
 // ------------------------------------------------------------------ generic trees
 
+// safeTree rewrites the leaves of a generic tree that TextSafe excludes.
+func (g *gen) safeTree(n tv.Node) tv.Node {
+	switch n.Kind {
+	case tv.KStruct:
+		for i := range n.Kids {
+			n.Kids[i] = g.safeTree(n.Kids[i])
+		}
+	case tv.KText:
+		if !textSafe(string(n.S)) {
+			n.S = []byte(g.text())
+		}
+	case tv.KDate:
+		if n.I < minDate || n.I > maxDate {
+			n.I = g.date().Unix()
+		}
+	}
+	return n
+}
+
 func (g *gen) tree() tv.Node {
+	if g.o.TextSafe {
+		return g.safeTree(g.rawTree())
+	}
+	return g.rawTree()
+}
+
+func (g *gen) rawTree() tv.Node {
 	if len(g.kinds) > 0 {
 		k := g.kinds[0]
 		g.kinds = g.kinds[1:]
